@@ -53,6 +53,14 @@ def perturbed(ctx, t, bi, n):
         if ss:
             i, info = r.choice(ss)
             out.append(("generic helper instantiated badly: " + stmt, tg.render(t, plant_s=(i, [stmt]))))
+    # the value of an if / case expression one of whose branches ends without a value, used
+    for lines in (['zv1 := 0', 'zv2 := if false do', '    1', 'else do', '    zv1 = 2', 'end', 'print(zv2 + 1)'],
+                  ['zv3 := case ZEV do', '    P x -> zq :: x end', '    Q -> 1 end', 'end', 'print(zv3 + 1)'],
+                  ['zvf :: fn c: bool -> int do', '    if c do', '        1', '    else do', '        zq :: 2', '    end', 'end',
+                   'print(zvf(false) + 1)']):
+        if ss:
+            i, info = r.choice(ss)
+            out.append(("valueless branch used: " + lines[1], tg.render(t, plant_s=(i, lines))))
     return out
 
 
